@@ -370,7 +370,16 @@ func (s *Session) readLine() (string, error) {
 // only the cone of the assumptions is defined, so z3 picks its one-shot
 // tactic pipeline (bit-blasting + SAT for QF_BV) instead of the much slower
 // incremental core.
-func (s *Session) Check(assumps ...*Term) (Result, error) {
+func (s *Session) Check(assumps ...*Term) (res Result, err error) {
+	defer func() {
+		if r := recover(); r != nil {
+			if msg, ok := r.(string); ok && strings.HasPrefix(msg, "print:") {
+				res, err = Unknown, fmt.Errorf("%s", msg)
+				return
+			}
+			panic(r)
+		}
+	}()
 	var lits []*Term
 	for _, a := range assumps {
 		if a.IsTrue() {
